@@ -178,6 +178,7 @@ pub fn raw_ccfg(c: &RawCase) -> CCfg {
         lang: None,
         empty_metadata: false,
         alias_builder: false,
+        reconfig: 0,
     }
 }
 
@@ -541,6 +542,7 @@ fn judge_video(st: &ModelState, cfg: &CCfg, pts: f64, dts: Option<f64>, frame: &
                     reject(&mut v, DurationOverflow);
                 } else if te.tick - last + slack > u32::MAX as u64 {
                     either.get_or_insert("half_tick_tie".into());
+                    contested.insert(DurationOverflow);
                 }
                 // documented f64 rules of the entry point
                 match dts {
@@ -637,6 +639,7 @@ fn judge_audio(st: &ModelState, audio_cfg: bool, pts: f64, data: &[u8], framing_
     }
     let mut tick = 0;
     let mut tie = false;
+    let mut gap_within_slack = false;
     if !pts.is_finite() {
         reject(&mut v, NonFinite);
     } else if pts < 0.0 {
@@ -658,6 +661,7 @@ fn judge_audio(st: &ModelState, audio_cfg: bool, pts: f64, data: &[u8], framing_
                     reject(&mut v, DurationOverflow);
                 } else if te.tick > lt && te.tick - lt + slack > u32::MAX as u64 {
                     either.get_or_insert("half_tick_tie".into());
+                    gap_within_slack = true;
                 }
                 if te.tick < lt {
                     either.get_or_insert("half_tick_tie".into());
@@ -685,7 +689,7 @@ fn judge_audio(st: &ModelState, audio_cfg: bool, pts: f64, data: &[u8], framing_
         if grey {
             v.insert(AudioFraming);
         }
-        if huge_audio_ts(pts) {
+        if huge_audio_ts(pts) || gap_within_slack {
             v.insert(DurationOverflow);
         }
         return (Verdict::MustReject(v), tick, tie);
